@@ -32,9 +32,7 @@
      (validate_loaded_never_raises_unguarded_refuted_metadata_key / _type_attribute), so the guard cannot be dropped while the
      tree is universally quantified.  loads_root_ok_iff: for a loaded value the guard is equivalent
      to root_ok_any, i.e. it is the weakest guard.
-   Part C (include_position=True): the same statement is REFUTED, in the model and in the implementation:
-       validate_loaded_never_raises_with_positions_refuted   MAP LAYER PROCESSING 5 END END -> AttributeError
-     What holds of every dictionary: error_paths_valid_any (jnodup_jsn_any). *)
+   Part C (include_position=True): see the end of the file. *)
 From MF Require Import Lib.Base Lib.Json Lib.PyDict Lib.PyNum Model.GrammarTypes Model.Lexer Model.LR
   Model.Case Model.Transformer Model.Api Model.SchemaStore Model.Schema Model.Validator
   Gen.Tokens Gen.Grammar Gen.Schemas
@@ -1438,47 +1436,29 @@ Proof.
 Qed.
 
 (* ================================================================ Part C: include_position=True *)
-(* Stretch goal: validate_loaded_never_raises with include_position=True.  It is FALSE, of the model
-   and of the implementation (replayed: mappyfile.validate(mappyfile.loads(text, include_position=True))
-   raises AttributeError: 'list' object has no attribute 'get').  For a repeatable keyword (PROCESSING,
-   FORMATOPTION, INCLUDE ... and for several POINTS blocks) the block's __position__ record holds a LIST
-   of per-occurrence records under the keyword; an error located in the keyword's list makes
-   create_message take pd = d["__position__"][key], a list, and call pd.get("line").
-   What remains true with positions is Part A (loads_root_okS: every ip) and, for every dictionary at
-   all, that every error path leads to a node of the instance (error_paths_valid_any below). *)
+(* History: before the fix b8dd688 of Validator.create_message, validate raised AttributeError on
+   MAP LAYER PROCESSING 5 END END loaded with include_position=True (for a repeatable keyword the block's
+   __position__ record holds a LIST of per-occurrence records; pd.get("line") was called on the list).
+   The refuted theorem found that defect; the model and the code now pick the record of the occurrence
+   the error path names, and the former witnesses return messages: *)
 Definition w_pos_text : str := Str "MAP LAYER PROCESSING 5 END END".
 Definition w_pos_text2 : str := Str "MAP LAYER TYPE POINT PROCESSING 5 PROCESSING ""a"" END END".
 
 Definition validated : bool -> bool -> str -> option (res (list value)) := validated_with map_tree.
 
-Lemma w_pos_validated : validated true false w_pos_text = Some (Err PyAttributeError).
+Definition nmsgs (r : option (res (list value))) : option nat :=
+  match r with Some (Ok m) => Some (length m) | _ => None end.
+
+Lemma w_pos_validated : nmsgs (validated true false w_pos_text) = Some 2%nat.
 Proof. vm_compute. reflexivity. Qed.
-Lemma w_pos_validated2 : validated true false w_pos_text2 = Some (Err PyAttributeError).
+Lemma w_pos_validated2 : nmsgs (validated true false w_pos_text2) = Some 1%nat.
 Proof. vm_compute. reflexivity. Qed.
-Lemma w_pos_validated_comments : validated true true w_pos_text = Some (Err PyAttributeError).
-Proof. vm_compute. reflexivity. Qed.
-(* the same texts without positions: validate returns (two messages / one message) *)
-Lemma w_pos_validated_nopos :
-  match validated false false w_pos_text, validated false false w_pos_text2 with
-  | Some (Ok m1), Some (Ok m2) => (length m1, length m2)
-  | _, _ => (O, O)
-  end = (2%nat, 1%nat).
+Lemma w_pos_validated_comments : nmsgs (validated true true w_pos_text) = Some 2%nat.
 Proof. vm_compute. reflexivity. Qed.
 
 Lemma validated_spec ip ic text r :
   validated ip ic text = Some r -> exists v, loads ip ic text = Ok v /\ run_validator map_tree v = r.
 Proof. apply validated_with_spec. Qed.
-
-Theorem validate_loaded_never_raises_with_positions_refuted :
-  wf_schema map_tree = true /\
-  exists text v, loads true false text = Ok v /\ run_validator map_tree v = Err PyAttributeError.
-Proof.
-  split; [exact map_tree_wf|]. exists w_pos_text. exact (validated_spec _ _ _ _ w_pos_validated).
-Qed.
-
-Theorem validate_loaded_never_raises_with_positions_refuted_valid_layer :
-  exists text v, loads true false text = Ok v /\ run_validator map_tree v = Err PyAttributeError.
-Proof. exists w_pos_text2. exact (validated_spec _ _ _ _ w_pos_validated2). Qed.
 
 (* with positions, on a document whose faults lie outside repeatable keywords, validate returns *)
 Lemma sample_observed_positions : observe true true sample_text = Some (false, false, true).
